@@ -12,9 +12,9 @@ from drivers import realproc as rp
 # ---------------------------------------------------------------------------------------------
 # C10
 
-def run_reload(wk, nhup, new_workers, seed):
+def run_reload(wk, nhup, new_workers, seed, bind="tcp"):
     cfg1 = 'workers = 2\nraw_env = ["VERIF_MARKER=gen0"]\n'
-    s = rp.Server(wk, workers=2, threads=3 if wk == "gthread" else None, config=cfg1,
+    s = rp.Server(wk, workers=2, threads=3 if wk == "gthread" else None, config=cfg1, bind=bind,
                   args=["--graceful-timeout", "4", "--keep-alive", "1", "--timeout", "30"], name="c10")
     # -w on the command line would override the file: drop it
     i = s.cmd.index("-w")
@@ -80,8 +80,12 @@ def run_reload(wk, nhup, new_workers, seed):
         settle_t = hups[-1] + 1.0
         tail = []
         for _ in range(6):
-            st, body, info = s.get("/pid", timeout=5)
-            tail.append(rp.parse_ident(body)[1])
+            try:
+                st, body, info = s.get("/pid", timeout=5)
+                tail.append(rp.parse_ident(body)[1])
+            except OSError:
+                recs.append({"t0": time.time(), "t1": time.time(), "path": "/pid", "outcome": "refused"})
+                tail.append(None)
         ev = []
         for r in recs:
             inflight = any(r["t0"] + 0.25 < h < r["t1"] for h in hups) and r["path"] != "/pid"
@@ -90,7 +94,7 @@ def run_reload(wk, nhup, new_workers, seed):
                    "old_marker_seen": any(m != final_marker for m in tail)})
         tr = {"wk": wk, "strict": wk == "sync", "ev": ev}
         bad = [r for r in recs if r["outcome"] != "complete"]
-        return tr, {"wk": wk, "nhup": nhup, "requests": len(recs), "not_complete": [(r["path"], r["outcome"]) for r in bad][:5],
+        return tr, {"wk": wk, "nhup": nhup, "bind": bind, "requests": len(recs), "not_complete": [(r["path"], r["outcome"]) for r in bad][:5],
                     "alive": len(alive), "want": want, "tail_markers": tail}
     finally:
         stop.set()
@@ -98,11 +102,17 @@ def run_reload(wk, nhup, new_workers, seed):
 
 
 def reload_side(ctx):
-    plan = [("sync", 1, 3), ("gthread", 2, 1), ("gevent", 1, 3)] if ctx.quick else \
-        [(wk, n, w) for wk in ("sync", "gthread", "gevent", "eventlet") for (n, w) in ((1, 3), (2, 1), (3, 2))]
-    results = _parallel(plan, lambda a, i: run_reload(a[0], a[1], a[2], ctx.seed * 10 + i))
+    plan = [("sync", 1, 3, "tcp"), ("gthread", 2, 1, "localhost"), ("gevent", 1, 3, "unix")] if ctx.quick else \
+        [(wk, n, w, b) for wk in ("sync", "gthread", "gevent", "eventlet") for (n, w, b) in ((1, 3, "tcp"), (2, 1, "localhost"), (3, 2, "unix"))]
+    results = _parallel(plan, lambda a, i: run_reload(a[0], a[1], a[2], ctx.seed * 10 + i, bind=a[3]))
     traces = [r[0] for r in results]
     metas = [r[1] for r in results]
+    # in-process: TERM (what a reload sends to the old workers) at every system-call boundary of the real sync loop
+    from props import syncloop
+    t2, m2 = syncloop.term_injection_traces(ctx.quick)
+    traces += t2
+    metas += m2
+    ctx.coverage["sync_loop_term_injection_points"] = len(t2)
     verdicts, stats = tlc.validate_batch("ReloadTrace", "ReloadTrace.cfg", traces, name="ReloadTrace_C10")
     ctx.add_traces(len(traces), stats)
     ctx.coverage["real_process_reloads"] = len(traces)
@@ -110,7 +120,10 @@ def reload_side(ctx):
     for t, m, (v, step) in zip(traces, metas, verdicts):
         if v == "ok":
             continue
-        ctx.violation("C10/%s/wk=%s" % (v, m["wk"]), "%s: %s event=%s" % (v, m, t["ev"][step - 1]), {"trace": t, "meta": m})
+        sig = "C10/%s/wk=%s" % (v, m["wk"])
+        if m.get("fired_at"):
+            sig += "/term-at=%s" % m["fired_at"]
+        ctx.violation(sig, "%s: %s event=%s" % (v, m, t["ev"][step - 1]), {"trace": t, "meta": m})
     for t, m in list(zip(traces, metas))[:2]:
         ctx.sample({"meta": m, "events": t["ev"][:5] + t["ev"][-1:]})
     ctx.assumptions += ["real-process reloads: requests issued by 4 client threads during 1-3 HUPs; a request counts as started "
